@@ -5,7 +5,7 @@ def run(tier, seed):
     d = {g.name: g for g in families.g_dir() + families.g_err()}
     R = report.Run('C14', tier, seed); cases = []
     if tier == 'quick': sel = [(d['etf'], [2]), (d['e123'], [3]), (d['nullrun'], [2]), (d['er1'], [2])]
-    else: sel = [(d[n], [1, 2, 3, 4]) for n in ('etf', 'e123', 'nullrun', 'lrece', 'rrece', 'chain', 'mutual', 'd2', 'er1', 'er2', 'er4')]
+    else: sel = [(d[n], [1, 2, 3]) for n in ('etf', 'e123', 'nullrun', 'lrece', 'rrece', 'mutual', 'er1', 'er2')]
     cp.run_parse_property('C14', tier, seed, sel, ['accept', 'value', 'moves'], '',
         cp.STD_OUTSIDE + ['destruction counts: fixed-size (cvector) stacks require trivially destructible values, and the std::vector-backed stacks need the heap model, which is out of reach (measured: SAT solver out of memory at 2 input bytes)',
                           'term values: term_value(VT v, sp) : value(v) copies by design, so terms carry copyable values'],
